@@ -4,8 +4,8 @@
 
    Models: Conf/Topics.v (Filter.parse_topics, split_commas_maybe), Conf/Options.v
    (Filter.parse_options), Conf/Normalize.v (normalize_config of Filter, Util, VideoIn, ImageIn,
-   VideoOut, ImageOut, Recorder, Webvis).  MQTTOut and REST are not modelled: for them the
-   property is validated by the implementation-side oracle of harness/corr_C11.py only.
+   VideoOut, ImageOut, Recorder, Webvis, MQTTOut, REST - all ten classes are modelled and compared
+   with the implementation by harness/corr_C11.py).
    [date_ok] stands for utils.parse_date_and_or_time accepting the text after '@' in exit_after:
    every theorem holds for every such predicate. *)
 From Coq Require Import ZArith List Bool.
@@ -114,6 +114,26 @@ Theorem C11_idempotent_Webvis :
   forall date_ok c c', webvis_normalize date_ok c = Ok c' -> webvis_normalize date_ok c' = Ok c'.
 Proof. exact webvis_idempotent. Qed.
 Print Assumptions C11_idempotent_Webvis.
+
+(* MQTTOut, partial.  Proved: idempotence whenever "outputs" is absent / None or a non-empty value
+   (the mqtt:// convenience string is spread over the configuration and deleted by the first
+   pass).  GAP: an empty "outputs" ('' or []) is kept, and the second pass moves that key behind
+   "mappings" - the results are equal as Python dicts but the ordered-list equality stated here
+   does not hold for them; that case is covered by the implementation-side oracle only. *)
+Theorem C11_idempotent_MQTTOut_partial :
+  forall date_ok c c',
+    (scm (dattr s_outputs c) = VNone \/ truthy (scm (dattr s_outputs c)) = true) ->
+    mqtt_normalize date_ok c = Ok c' -> mqtt_normalize date_ok c' = Ok c'.
+Proof. exact mqtt_idempotent_partial. Qed.
+Print Assumptions C11_idempotent_MQTTOut_partial.
+
+(* REST: the clause is FALSE.  A path (or base_path) with a doubled leading '/' loses one '/' per
+   pass: {'outputs': 'tcp://*', 'sources': 'http://h:80;//a>t'} gives the endpoint path '/a', and
+   normalising that again gives 'a' (witness replayed on the implementation by corr_C11.py). *)
+Theorem C11_idempotent_REST_refuted :
+  exists c c', rest_normalize all_dates_ok c = Ok c' /\ rest_normalize all_dates_ok c' <> Ok c'.
+Proof. exact rest_not_idempotent. Qed.
+Print Assumptions C11_idempotent_REST_refuted.
 
 (* ======================= text form = structured form ====================================== *)
 (* record lists: 'addr!opt!opt;topic, addr...'  =  ['addr!opt!opt;topic', ...]  =
